@@ -18,7 +18,10 @@
    64-bit boundary cases are covered by a hand-checked table in harness/c10.py. *)
 EXTENDS Integers, Sequences, SequencesExt, FiniteSets, TLC, Json, CSV, IOUtils
 
-CONSTANTS Seed, Stride
+CONSTANTS Seed, Stride,
+          KwStride,    \* the keyword-spelled family is sampled on its own (0 = not generated)
+          CastStride   \* ... and within it the shapes `(k) op a ...`, where only a few (keyword, operator, operand)
+                       \* combinations change the value SILENTLY under a cast reading, more densely
 
 Lim == 1048576
 Small(x) == x > -Lim /\ x < Lim
@@ -110,13 +113,99 @@ ExprAt(i) ==
        IN <<c[1] \o " ? " \o a[1] \o " : " \o b[1],
             IF a[2].ok /\ b[2].ok THEN V(r.v, a[2].u \/ b[2].u) ELSE Bad>>      \* 6.5.15p5: common type of both arms
 
+(* ---- identifiers lexically identical to keywords (fifth round) ----------
+   6.10.1p4: "After all replacements due to macro expansion and the defined
+   unary operator have been performed, all remaining identifiers (including
+   those lexically identical to keywords) are replaced with the pp-number 0".
+   Keywords do not exist in translation phase 4: `int`, `sizeof`, `_Bool` are
+   identifiers like any other — 0 if they are not macros, replaced if they
+   are, and `defined` answers for them as for any name.  There are no casts:
+   `(unsigned)-1 < 0` is `(0)-1 < 0`.
+
+   The operand alphabet above has one spelling class of identifiers (X, Y, U).
+   This family adds the class "spelled like a keyword" as a dimension: every
+   C11 keyword and every extension spelling of chibicc's / gcc's keyword
+   tables, in two environments (d = 0: not a macro; d = 1: #define k 5), in
+   every operand position of every operator, under `defined`, in the arms and
+   the condition of ?:, and in the shapes `(k) op a rel c` / `(k) op a == (k2) op a`
+   with op one of the operators that are both unary and binary in C, where
+   reading `(k)` as a cast changes the value or makes the line ill-formed.   *)
+Keywords == <<"auto", "break", "case", "char", "const", "continue", "default", "do", "double", "else", "enum",
+              "extern", "float", "for", "goto", "if", "inline", "int", "long", "register", "restrict", "return",
+              "short", "signed", "sizeof", "static", "struct", "switch", "typedef", "union", "unsigned", "void",
+              "volatile", "while", "_Alignas", "_Alignof", "_Atomic", "_Bool", "_Complex", "_Generic",
+              "_Imaginary", "_Noreturn", "_Static_assert", "_Thread_local",
+              "typeof", "asm", "__restrict", "__restrict__", "__thread", "__attribute__",
+              "__inline", "__asm__", "__extension__">>
+(* (not in the list: reserved spellings that an implementation predefines as macros — chibicc defines
+   __typeof__, __alignof__, __inline__, __const__, __signed__, __volatile__ as object-like macros, which 6.10.8
+   allows; `defined __typeof__` is then 1 by the rule itself) *)
+NKw == Len(Keywords)
+KwVal(d) == V(IF d = 1 THEN 5 ELSE 0, FALSE)
+KwAtoms == << <<"1", V(1, FALSE)>>, <<"2", V(2, FALSE)>>, <<"300", V(300, FALSE)>>, <<"1u", V(1, TRUE)>> >>
+NKA == Len(KwAtoms)
+CastOps == <<"-", "+", "*", "&">>        \* unary and binary in C: after a cast they would be read as unary
+Rels == << <<"<", "0">>, <<">", "255">>, <<"==", "2">>, <<"==", "300">>, <<">=", "0">>, <<"!=", "1">> >>
+AtomVal(t) == CASE t = "0" -> V(0, FALSE) [] t = "1" -> V(1, FALSE) [] t = "2" -> V(2, FALSE)
+                [] t = "255" -> V(255, FALSE) [] t = "300" -> V(300, FALSE)
+
+KwExprs(ki, d) ==
+  LET k  == Keywords[ki]
+      k2 == Keywords[(ki % NKw) + 1]          \* another keyword; never a macro
+      kv == KwVal(d)
+      z  == V(0, FALSE)
+      E(t, v, sh) == <<t, v, sh>>
+  IN << E(k, kv, "bare"), E("(" \o k \o ")", kv, "bare"),
+        E("defined " \o k, B(d = 1), "defined"), E("defined(" \o k \o ")", B(d = 1), "defined"),
+        E("!defined " \o k, B(d # 1), "defined"), E("defined " \o k \o " || " \o k, B(d = 1), "defined"),
+        E("defined(" \o k \o ") + " \o k \o " + defined " \o k2, V(IF d = 1 THEN 6 ELSE 0, FALSE), "defined"),
+        E(k \o " ? 1 : 2", V(IF d = 1 THEN 1 ELSE 2, FALSE), "cond"),
+        E("1 ? " \o k \o " : 2u", V(kv.v, TRUE), "cond"), E("0 ? 1 : " \o k, kv, "cond"),
+        E(k \o " ? " \o k2 \o " : " \o k, z, "cond") >>
+     \o [o \in 1..Len(UnOps) |-> E(UnOps[o] \o k, Un(UnOps[o], kv), "unary")]
+     \o [o \in 1..Len(UnOps) |-> E(UnOps[o] \o "(" \o k \o ")", Un(UnOps[o], kv), "unary")]
+     \o [j \in 1..(NB * NKA) |->
+           LET op == BinOps[((j - 1) \div NKA) + 1]  a == KwAtoms[((j - 1) % NKA) + 1]
+           IN E(k \o " " \o op \o " " \o a[1], Bin(op, kv, a[2]), "binary")]
+     \o [j \in 1..(NB * NKA) |->
+           LET op == BinOps[((j - 1) \div NKA) + 1]  a == KwAtoms[((j - 1) % NKA) + 1]
+           IN E(a[1] \o " " \o op \o " " \o k, Bin(op, a[2], kv), "binary")]
+     \o [j \in 1..NB |-> E(k \o " " \o BinOps[j] \o " " \o k2, Bin(BinOps[j], kv, z), "binary")]
+     \o [j \in 1..(Len(CastOps) * NKA * Len(Rels)) |->
+           LET op == CastOps[((j - 1) \div (NKA * Len(Rels))) + 1]
+               a  == KwAtoms[(((j - 1) \div Len(Rels)) % NKA) + 1]
+               r  == Rels[((j - 1) % Len(Rels)) + 1]
+           IN E("(" \o k \o ")" \o op \o a[1] \o " " \o r[1] \o " " \o r[2], IF op = "&" THEN Bin("&", kv, Bin(r[1], a[2], AtomVal(r[2])))          \* & binds weaker than the relational operators
+                                                                                                ELSE Bin(r[1], Bin(op, kv, a[2]), AtomVal(r[2])),
+                "paren-unary")]
+     \o [j \in 1..(Len(CastOps) * NKA) |->
+           LET op == CastOps[((j - 1) \div NKA) + 1]  a == KwAtoms[((j - 1) % NKA) + 1]
+           IN E("(" \o k \o ")" \o op \o a[1] \o " == (" \o k2 \o ")" \o op \o a[1], IF op = "&" THEN Bin("&", Bin("&", kv, Bin("==", a[2], z)), a[2])
+                                                                                         ELSE Bin("==", Bin(op, kv, a[2]), Bin(op, z, a[2])),
+                "paren-unary")]
+NKwShapes == Len(KwExprs(1, 0))
+
 VARIABLES i, done
-Init == i \in {k \in 1..(NBin + NTern) : (k * 7919 + Seed) % Stride = 0} /\ done = FALSE
+(* i <= NBin + NTern: one expression of the general family; above: one (keyword, environment) of the
+   keyword-spelled family, all of whose sampled shapes are written in one step *)
+Init == /\ i \in {k \in 1..(NBin + NTern) : (k * 7919 + Seed) % Stride = 0}
+              \cup (IF KwStride = 0 THEN {} ELSE (NBin + NTern + 1)..(NBin + NTern + 2 * NKw))
+        /\ done = FALSE
+EmitKw(ki, d) ==
+  LET es == KwExprs(ki, d) IN
+  \A s \in 1..Len(es) :
+     LET e == es[s]
+         idx == ((ki - 1) * 2 + d) * Len(es) + s IN
+     IF (idx * 7919 + Seed) % (IF e[3] = "paren-unary" THEN CastStride ELSE KwStride) = 0 /\ e[2].ok /\ Small(e[2].v)
+     THEN CSVWrite("%1$s", <<ToJson([e |-> e[1], v |-> e[2].v, u |-> e[2].u, kw |-> Keywords[ki], d |-> d, shape |-> e[3]])>>, IOEnv.OUT)
+     ELSE TRUE
 Next == /\ ~done /\ done' = TRUE /\ i' = i
-        /\ LET e == ExprAt(i) IN
-           IF e[2].ok /\ Small(e[2].v)
-           THEN CSVWrite("%1$s", <<ToJson([e |-> e[1], v |-> e[2].v, u |-> e[2].u])>>, IOEnv.OUT)
-           ELSE TRUE
+        /\ IF i <= NBin + NTern
+           THEN LET e == ExprAt(i) IN
+                IF e[2].ok /\ Small(e[2].v)
+                THEN CSVWrite("%1$s", <<ToJson([e |-> e[1], v |-> e[2].v, u |-> e[2].u])>>, IOEnv.OUT)
+                ELSE TRUE
+           ELSE LET j == i - NBin - NTern - 1 IN EmitKw((j \div 2) + 1, j % 2)
 Spec == Init /\ [][Next]_<<i, done>>
 (* sanity of the evaluator itself (checked on every generated expression) *)
 Sane == TRUE
